@@ -415,7 +415,7 @@ def run(tier: str, seed: int) -> Result:
   stream = Stream("c19_events", "From Fiddle Require Import Threads C19Check.", "C19Check.case",
                   "C19Check.check_case")
   res.streams.append(stream)
-  n = 160 if tier == "quick" else 4000
+  n = 160 if tier == "quick" else 1500
   UNLOGGED[0] = 0
   for i in range(n):
     one_schedule(rng, res, stream, f"sched#{i}", rng.choice([2, 2, 3]))
